@@ -374,6 +374,25 @@ Proof. intros H. induction l as [|x l IH]; intros a; simpl; [reflexivity|]. rewr
 Lemma filter_length_le' {A} (f : A -> bool) (l : list A) : length (filter f l) <= length l.
 Proof. induction l as [|x l IH]; simpl; [lia|]. destruct (f x); simpl; lia. Qed.
 
+(* the parallel variant computes what the stable variant computes (all tests on the graph as it was at the start of
+   the level, removals applied in edge order) *)
+Lemma level_pass_parallel_stable indep vars sord lim E sp :
+  level_pass Parallel indep vars sord lim E sp = level_pass Stable indep vars sord lim E sp.
+Proof.
+  unfold level_pass. rewrite fold_left_map_gen. apply fold_left_pointwise. intros [Ec sp0] [u v]. reflexivity.
+Qed.
+Lemma sk_loop_parallel_stable indep maxc vars sord : forall fuel lim E sp,
+  sk_loop fuel Parallel indep maxc vars sord lim E sp = sk_loop fuel Stable indep maxc vars sord lim E sp.
+Proof.
+  induction fuel as [|f IH]; intros lim E sp; [reflexivity|]. cbn [sk_loop].
+  rewrite level_pass_parallel_stable.
+  destruct (forallb _ vars); [reflexivity|].
+  destruct (level_pass Stable indep vars sord lim E sp) as [E' sp']. destruct (Nat.leb maxc lim); [reflexivity|apply IH].
+Qed.
+Lemma pc_pdag_parallel_stable indep maxc vars sord :
+  pc_pdag Parallel indep maxc vars sord = pc_pdag Stable indep maxc vars sord.
+Proof. unfold pc_pdag, build_skeleton. rewrite sk_loop_parallel_stable. reflexivity. Qed.
+
 Section Loop.
 Variable g : digraph.
 Hypothesis Hw : wf_graph g.
